@@ -1,5 +1,6 @@
 """C06 — serializer preferences do exactly what they document, in every combination."""
 
+import re
 import logging
 from fractions import Fraction
 
@@ -23,7 +24,8 @@ RULE = (
     'documented effect of every switched-on preference (comments / empty rules / unknown rules / unused namespace rules '
     'dropped, effective-only / valid-only properties, href form, variable resolution); numbers and hashes compare by '
     'value; assignments touching only layout preferences keep the non-white-space token sequence of the default output; '
-    'useDefaults() restores the default output byte for byte - of every rule serialised on its own first (rule.cssText is a string '
+    'the at-keywords of the output are the normalised ones (defaultAtKeyword) or, with the switch off, spellings of the source '
+    '(white space ending an escape aside); useDefaults() restores the default output byte for byte - of every rule serialised on its own first (rule.cssText is a string '
     'under every assignment), then of the sheet. In half of the cases a second DOM is reached by edits: every top-level rule of the '
     'sheet as written (literal, escaped, upper-case keywords) takes the text of its normalised twin; under the same preferences it '
     'must be written byte for byte like the sheet parsed from the normalised text, rule by rule and as a whole. special: indentSpecificities / lineNumbers with other preferences over the same DOMs '
@@ -33,7 +35,7 @@ RULE = (
 )
 ASSUMPTIONS = [
     'indentSpecificities (documented EXPERIMENTAL) and lineNumbers (changes content by design) are only exercised for "no exception" and "defaults restore"',
-    'a rule counts as empty when it holds no declaration at any depth; empty @page / @font-face / margin boxes compare as absent under every setting',
+    'a rule counts as empty when it holds no declaration at any depth; keepEmptyRules keeps empty style, @media, @page, @font-face rules and margin boxes',
     'multi-line comments inside blocks are generated single-line (finding F03-2)',
     'projections are computed under default preferences (the reparsed output is projected after useDefaults())',
 ]
@@ -140,12 +142,12 @@ def prune(proj, keep_empty):
             if not keep_empty and not has_decl(r):
                 continue
         elif k == 'page':
-            margins = tuple(m for m in r[4] if m[0] != 'margin' or any(i[0] == 'decl' for i in m[2]))
+            margins = tuple(m for m in r[4] if keep_empty or m[0] != 'margin' or any(i[0] == 'decl' for i in m[2]))
             r = r[:4] + (margins,)
-            if not has_decl(r):
+            if not keep_empty and not has_decl(r):
                 continue
         elif k == 'fontface':
-            if not has_decl(r):
+            if not keep_empty and not has_decl(r):
                 continue
         elif k == 'style':
             if not keep_empty and not has_decl(r):
@@ -375,6 +377,25 @@ def check(case, ctx):
             if ta != tb:
                 i = next((i for i, (x, y) in enumerate(zip(ta, tb)) if x != y), min(len(ta), len(tb)))
                 raise Violation('layout:changes-tokens', f'prefs {prefs}: token {i}: {ta[i:i + 3]} vs {tb[i:i + 3]}; output {out[:300]!r}')
+        # at-keywords: the spelling of the source (defaultAtKeyword=False) or the normalised one
+        def atkeywords(t):
+            # (the white space which ends an escape inside a keyword may be written as a blank)
+            return [re.sub(r'(\\[0-9a-fA-F]{1,6})(?:\r\n|[ \t\r\n\f])', r'\1 ', v) for n, v in nonspace_tokens(t)
+                    if (n.endswith('_SYM') and n != 'CHARSET_SYM') or n == 'ATKEYWORD']
+
+        kws = atkeywords(out.decode(d.encoding))
+        if eff['defaultAtKeyword']:
+            bad = [v for v in kws if v != ''.join(c.lower() if c.isascii() else c for c in v)]
+            if bad:
+                raise Violation('effect:defaultAtKeyword:not-normalised', f'prefs {prefs}: {bad[:3]} in output {out[:300]!r}')
+        else:
+            src = set(atkeywords(text))
+            bad = [v for v in kws if v not in src]
+            if kws:
+                ctx.event('literal-keywords-compared')
+            if bad:
+                raise Violation('effect:defaultAtKeyword:not-the-literal-keyword', f'prefs {prefs}: {bad[:3]} not among the source spellings '
+                                f'{sorted(src)[:8]}; output {out[:300]!r}')
         # href form
         fmt = eff['importHrefFormat']
         if fmt in ('string', 'uri'):
